@@ -114,7 +114,7 @@ mut("c07-v4-rx-id-offset", "C07", "bellows/ezsp/v4/__init__.py",
     "        return data[0], data[2], data[3:]", "        return data[0], data[2], data[4:]", checks=["C07", "C08"])
 mut("c07-v8-rx-id-8bit", "C07", "bellows/ezsp/v8/__init__.py",
     "        frame_id, data = t.uint16_t.deserialize(data)\n", "        frame_id, data = data[0], data[2:]\n")
-mut("c07-duplicate-frame-id", "C07", "bellows/ezsp/v7/commands.py", "\"nop\": (\n        0x05,", "\"nop\": (\n        0x06,")
+mut("c07-duplicate-frame-id", "C07", "bellows/ezsp/v4/commands.py", "\"nop\": (\n        0x05,", "\"nop\": (\n        0x06,")
 
 # ---- C08 -------------------------------------------------------------------------------
 EZ = "bellows/ezsp/__init__.py"
@@ -143,11 +143,11 @@ mut("c06-callbacks-fanned-out-twice", "C06", EZ,
 mut("c06-awaiting-not-popped", "C06", PROTO,
     "            expected_id, schema, future = self._awaiting.pop(sequence)", "            expected_id, schema, future = self._awaiting[sequence]")
 mut("c06-timeout-outside-lock-release", "C06", PROTO,
-    "            await self._gw.send_data(data)\n\n            async with asyncio_timeout(EZSP_CMD_TIMEOUT):\n                return await future",
-    "            await self._gw.send_data(data)\n\n        async with asyncio_timeout(EZSP_CMD_TIMEOUT):\n            return await future")
+    "                async with asyncio_timeout(EZSP_CMD_TIMEOUT):\n                    return await future\n            finally:",
+    "                pass\n            finally:\n                pass\n        try:\n            if True:\n                async with asyncio_timeout(EZSP_CMD_TIMEOUT):\n                    return await future\n        finally:\n            if True:")
 mut("c06-awaiting-keyed-by-next-seq", "C06", PROTO,
-    "            self._awaiting[self._seq] = (cmd_id, rx_schema, future)\n            self._seq = (self._seq + 1) % 256",
-    "            self._seq = (self._seq + 1) % 256\n            self._awaiting[self._seq] = (cmd_id, rx_schema, future)", checks=["C06", "C07"])
+    "            seq = self._seq\n            self._awaiting[seq] = (cmd_id, rx_schema, future)\n            self._seq = (self._seq + 1) % 256",
+    "            self._seq = (self._seq + 1) % 256\n            seq = self._seq\n            self._awaiting[seq] = (cmd_id, rx_schema, future)", checks=["C06", "C07"])
 
 # ---- C15 -------------------------------------------------------------------------------
 MC = "bellows/multicast.py"
